@@ -159,7 +159,18 @@ func c11History(k *fw.K, quick bool) {
 	if quick {
 		m.Steps = 2 + r.Intn(5)
 	}
-	m.Variant = []string{"plain", "vary-batch", "omit-reset", "extra-forward", "reuse-batch", "dead-relu", "exact-fit", "large-logits"}[r.Intn(8)]
+	m.Variant = []string{"plain", "vary-batch", "omit-reset", "extra-forward", "reuse-batch", "dead-relu", "exact-fit", "large-logits", "saturated-tanh", "non-finite-feature"}[r.Intn(10)]
+	if m.Variant == "saturated-tanh" {
+		// every unit deep in the plateau of Tanh (|z| = 19.5..24: tanh rounds to +-1, its derivative 1/cosh^2 is 1e-17..1e-21) under
+		// targets of the size of 1e5..1e6: the parameters still move by a representable amount at every step
+		m.Act, m.Loss = "tanh", "mse"
+		m.LR, m.conf, m.lr = "0.5", &optimizers.SGDConfig{LearningRate: 0.5}, 0.5
+	}
+	if m.Variant == "non-finite-feature" {
+		// zero weights meet an infinite feature: W*sum(x) = 0*Inf is NaN, and so are the loss, both gradients and both parameters
+		// after the step (no activation, squared error: nothing in between can absorb a NaN)
+		m.Act, m.Loss = "none", "mse"
+	}
 	if m.Variant == "large-logits" { // samples of ONE batch whose logits sit at opposite ends of the range Softmax is specified for (|x| <= 700)
 		m.Act, m.Loss = "softmax", []string{"ce", "mse"}[r.Intn(2)]
 		if m.B < 2 {
@@ -194,6 +205,17 @@ func c11History(k *fw.K, quick bool) {
 	if m.Variant == "dead-relu" {
 		for i := range w0.Data {
 			w0.Data[i], b0.Data[i] = -math.Abs(w0.Data[i])-0.1, -math.Abs(b0.Data[i])-0.1
+		}
+	}
+	satSign := []float64{1, -1}[r.Intn(2)]
+	if m.Variant == "saturated-tanh" {
+		for i := range w0.Data { // the features of a sample sum to 1 (see newBatch): z = w + b
+			w0.Data[i], b0.Data[i] = (19.5+4*r.Float64())*[]float64{1, -1}[r.Intn(2)], 0.4*r.Float64()
+		}
+	}
+	if m.Variant == "non-finite-feature" {
+		for i := range w0.Data {
+			w0.Data[i] = 0
 		}
 	}
 	trace := []map[string]any{}
@@ -291,6 +313,19 @@ func c11History(k *fw.K, quick bool) {
 		if m.Variant == "dead-relu" {
 			x = RandT(r, []int{m.B, m.D}, 0.1, 1)
 		}
+		if m.Variant == "saturated-tanh" {
+			for b := 0; b < m.B; b++ {
+				rest := 1.
+				for d := 0; d < m.D-1; d++ {
+					x.Data[b*m.D+d] = rest * (0.1 + 0.5*r.Float64())
+					rest -= x.Data[b*m.D+d]
+				}
+				x.Data[b*m.D+m.D-1] = rest
+			}
+		}
+		if m.Variant == "non-finite-feature" {
+			x.Data[r.Intn(len(x.Data))] = []float64{math.Inf(1), math.Inf(-1)}[r.Intn(2)]
+		}
 		if m.Variant == "large-logits" {
 			for b := 0; b < m.B; b++ {
 				sum := (300 + 300*r.Float64()) * []float64{1, -1}[(b+r.Intn(2))%2]
@@ -316,6 +351,9 @@ func c11History(k *fw.K, quick bool) {
 			}
 			if m.Loss == "mse" {
 				t.Data[i] = r.Float64()*2 - 1
+			}
+			if m.Variant == "saturated-tanh" {
+				t.Data[i] = satSign * (1e5 + 9e5*r.Float64()) // one sign: the terms of a parameter's gradient do not cancel
 			}
 		}
 		if m.Variant == "exact-fit" {
@@ -526,6 +564,29 @@ func c11History(k *fw.K, quick bool) {
 		// ---- updates ----
 		for wi, wp := range ws {
 			before := *wp.Value
+			if m.Variant == "saturated-tanh" {
+				// the step is far below the resolution of the parameter (1e-11 of 20): the gradient itself is compared, element by
+				// element and relatively (its terms have one sign)
+				g := before.Gradient()
+				if g == nil {
+					k.Failf("step %d: weight %d has no gradient", step, wi)
+					return
+				}
+				got, err := rt.Read(g)
+				if err != nil {
+					k.Failf("step %d: gradient of weight %d unreadable: %v", step, wi, err)
+					return
+				}
+				if e := rt.CompareRef(got, gSum[1+wi], 0, 1e-6, nil, 0); e != nil {
+					if rt.CompareRef(got, gAvg[1+wi], 0, 1e-6, nil, 0) == nil && m.B > 1 {
+						k.Knownf(knownBroadcastMean, "step %d of FC(%d->%d)->tanh->mse batch %d [saturated-tanh]: gradient of weight %d is the one with expanded operands averaged over their copies (%v)", step, m.D, m.O, m.B, wi, e)
+					} else {
+						k.Failf("step %d of FC(%d->%d)->tanh->mse batch %d [saturated-tanh: pre-activations of magnitude 19.5..24, targets of magnitude 1e5..1e6]: gradient of weight %d differs from dLoss/dw: %v", step, m.D, m.O, m.B, wi, e)
+						return
+					}
+				}
+				k.Count("saturated_tanh_gradients_compared", 1)
+			}
 			var uerr error
 			if pn := call(func() { uerr = opt.Update(wp.Value) }); pn != nil {
 				k.Failf("step %d: Update(weight %d): PANIC: %v", step, wi, pn)
